@@ -132,7 +132,7 @@ class JobContext(object):
                     kn.append((k, kt))
             q = And(Not(t), *[Not(kt) for _, kt in kn])
             items.append([label, t, kn, q])
-        if self.cross_left > 0:
+        if self.cross_left > 0 and not self.I.fresh_mode:
             self.cross_left -= 1
             self.cross_check(Or(*[it[3] for it in items]))
         t0 = time.time()
@@ -223,7 +223,7 @@ class JobContext(object):
         I = self.I
         if not extra and I.model is not None:
             return "sat", I.model
-        if os.environ.get("PSX_DUMP"):
+        if os.environ.get("PSX_DUMP") and not I.fresh_mode:
             I.solver.push()
             for e in extra:
                 I.solver.add(e)
@@ -376,7 +376,7 @@ class JobContext(object):
             "validation_mismatch": self.validation_mismatch, "witness": self.witness, "exc_paths": dict(self.exc_paths),
             "solver_calls": st.solver_calls, "solver_time": round(st.solver_time, 3), "max_query": round(st.max_query, 3),
             "steps": st.steps, "unknown": st.unknown, "functions": st.functions, "patterns": sorted(st.patterns),
-            "cross_done": self.cross_done, "cross_disagree": self.cross_disagree,
+            "cross_done": self.cross_done, "cross_disagree": self.cross_disagree, "fresh_solver_calls": st.fresh_solver_calls,
             "cuts": st.cuts,
         }
 
@@ -574,7 +574,7 @@ def finish(prop, tier, seed, results, meta, wall, extra_coverage=None, extra_err
         if "crash" in r:
             errors.append("job %s %s crashed: %s" % (hname, r.get("params"), r["crash"]))
             continue
-        for k in ("obligations", "trivial", "discharged", "distinct", "distinct_obligations", "validated", "solver_calls", "steps", "unknown"):
+        for k in ("obligations", "trivial", "discharged", "distinct", "distinct_obligations", "validated", "solver_calls", "steps", "unknown", "fresh_solver_calls"):
             tot[k] += r[k]
             per_harness[hname][k] += r[k]
         tot["solver_time"] += r["solver_time"]
@@ -643,6 +643,7 @@ def finish(prop, tier, seed, results, meta, wall, extra_coverage=None, extra_err
         "solver_time_s": round(tot["solver_time"], 2),
         "max_query_s": round(max_query, 3),
         "solver_unknown_first_attempt": int(tot["unknown"]),
+        "queries_redecided_by_fresh_nonincremental_solver": int(tot["fresh_solver_calls"]),
         "interpreted_ast_steps": int(tot["steps"]),
         "functions_encoded": sorted(functions),
         "source_hashes": _hashes(set(functions.values())),
